@@ -340,3 +340,76 @@ func runWindows(reps int) (finish func()) {
 		fw.Wait()
 	}
 }
+
+// closeRaces: transport Close() racing with the failure of the connections it
+// has to tear down (every reader sees a read error at the moment Close starts).
+// Both sides close the same connections and update the same pool bookkeeping;
+// Close must return and every call must end, whatever the order.
+func closeRaces(trials int) {
+	var wg sync.WaitGroup
+	sem := make(chan struct{}, 8)
+	var stop atomic.Bool
+	for i := 0; i < trials && !stop.Load(); i++ {
+		wg.Add(1)
+		sem <- struct{}{}
+		go func(i int) {
+			defer wg.Done()
+			defer func() { <-sem }()
+			tr := []string{"reuse", "reuse", "pipe-stream", "pipe-dgram"}[i%4]
+			k := 1 + i%6
+			wc := winCase{Transport: tr, Hook: "close-race", NB: k, Rep: i}
+			w := &winWorld{wc: wc, net: fakenet.NewNet(), defr: map[*fakenet.Conn]*wire.Deframer{}, wrote: map[int]*fakenet.Conn{}, wroteC: make(chan int, 64), aSeq: -1}
+			t := w.transport()
+			rep.Eval(1)
+			var calls []*winCall
+			for j := 0; j < k; j++ {
+				c := w.call(t, context.Background(), int(seqCtr.Add(1)))
+				calls = append(calls, c)
+				if w.waitWrote(c.seq, 5*time.Second) == nil {
+					rep.Count("close_race_setup_incomplete", 1)
+				}
+			}
+			conns := w.net.Conns()
+			start := make(chan struct{})
+			var rw sync.WaitGroup
+			for _, c := range conns {
+				rw.Add(1)
+				go func(c *fakenet.Conn) {
+					defer rw.Done()
+					<-start
+					c.InjectErr(fakenet.ErrInjected)
+				}(c)
+			}
+			closed := make(chan struct{})
+			go func() { <-start; t.Close(); close(closed) }()
+			close(start)
+			rw.Wait()
+			select {
+			case <-closed:
+			case <-time.After(wCtx):
+				if !stop.Swap(true) {
+					rep.Violation("close-did-not-return-close-race-"+tr, fmt.Sprintf("transport Close() racing with read errors on its %d connection(s) still blocked after %.0f s", len(conns), wCtx.Seconds()), map[string]any{"transport": tr, "calls_in_flight": k, "trial": i, "goroutines": trunc(leak.Full(), 80000)})
+				}
+				return
+			}
+			for _, c := range calls {
+				select {
+				case <-c.done:
+				case <-time.After(wCtx):
+					if !stop.Swap(true) {
+						rep.Violation("call-did-not-return-close-race-"+tr, "exchange still blocked 10 s after its connection failed and the transport was closed", map[string]any{"transport": tr, "trial": i, "goroutines": trunc(leak.Full(), 80000)})
+					}
+					return
+				}
+			}
+			for _, c := range conns {
+				if !c.WaitClosed(wCtx) {
+					rep.Violation("conn-not-closed-after-close-race-"+tr, "connection still open 10 s after transport Close", map[string]any{"transport": tr, "trial": i})
+				}
+			}
+			rep.Count("close_races_survived:"+tr, 1)
+			rep.Nontrivial(fmt.Sprintf("close-race|%s|k%d|%d", tr, k, i%64))
+		}(i)
+	}
+	wg.Wait()
+}
